@@ -97,11 +97,13 @@ theorem c23_free_once (s : State) (hr : Reachable s) :
   · intro h; exact hdisj _ (List.mem_append_left _ h) _ ho rfl
   · intro h; exact hdisj _ (List.mem_append_right _ h) _ ho rfl
 
--- frees by `clear_memos` (1, of slot 6), by `new_revision` (0, deferred), and both logged once
-example : ∃ s, Reachable s ∧ s.frees = [3, 0, 1] ∧ s.cur = 3 ∧ stateOf s 2 = some .live :=
+-- frees by `clear_memos` (1, of slot 6) and by `new_revision` (0, deferred), each logged once;
+-- 3 is deferred (replaced in the current revision), 2 and 4 are live
+example : ∃ s, Reachable s ∧ s.frees = [0, 1] ∧ s.cur = 3 ∧ stateOf s 2 = some .live ∧
+    stateOf s 3 = some .deferred ∧ stateOf s 4 = some .live :=
   ⟨_, ⟨[.publish 5 0, .publish 6 0, .dropRef 0, .dropRef 0, .newRevision, .clearMemos 6,
         .publish 5 0, .dropRef 0, .newRevision, .publish 5 1, .publish 5 1, .dropRef 0, .dropRef 0,
-        .clearMemos 7], rfl⟩, by decide, rfl, by decide⟩
+        .clearMemos 7], rfl⟩, by decide, rfl, by decide, by decide, by decide⟩
 
 /-- dropping the database frees every allocation ever made (nothing leaks, nothing is freed
     twice), and no step is possible afterwards. -/
